@@ -615,6 +615,12 @@ def gen_sweep(ck, rng, tier, sd, lines):
             out.append(Inp("sort-region", "region#%d clocks=%s before last event" % (k, clocks), n,
                            with_obs(s, d[:last["off"]] + reg + d[last["off"]:])))
             out.append(Inp("sort-region", "region#%d clocks=%s at end" % (k, clocks), n, with_obs(s, d + reg)))
+        # sort windows that span more than 2^31 / 2^32 ns (clock differences do not fit in an int)
+        for k, (t0, clocks, t1) in enumerate(((3000001600, [2500000000, 1650], 3000001700),
+                                              (5000000000, [4999999999, 700000000, 4999999998], 5000000001),
+                                              (1 << 40, [(1 << 40) - 1, (1 << 33) + 5, 1 << 32, (1 << 31) + 1700], (1 << 40) + 1))):
+            reg = E("OU[", t0) + b"".join(E("OB.", c) for c in clocks) + E("OU]", t1)
+            out.append(Inp("sort-region", "wide region#%d clocks=%s at end" % (k, clocks), n, with_obs(s, d + reg)))
         # traces with several streams: a region at the very start of EACH stream whose events predate
         # everything before them (ovnisort keeps one look-back ring for the whole trace)
         if len(s) > 1:
